@@ -46,6 +46,25 @@ def cases(tier, seed):
             continue
         t = gen.gen_tree(r, rootname=gen.gen_name(r, set(), odd=0.2), maxdepth=r.choice([2, 3, 5]), md=0.5, classes=gen.CLASSES_C)
         paths = gen.tree_paths(t)
+        deep = [p for p in paths if len(p) >= 2]
+        if deep and r.random() < 0.15:
+            # a tree that was RE-ARRANGED after it was built: a first-level node is cut off (it becomes the only child of a new
+            # Root) or grafted directly under the Root of another tree — it lands on the tree path it had — and a strict
+            # descendant of it is the save target: the file must name the root the node is under NOW
+            tgt = r.choice(deep)
+            a = tgt[0]
+            if r.random() < 0.5:
+                prep = [{"op": "cut", "tree": "T", "path": [a], "as": "C", "opt": r.choice([True, False, "copy"])}]
+                trees, src = {"T": t}, "C"
+            else:
+                t2 = gen.gen_tree(r, rootname="other " + t["name"], maxdepth=1, md=0.7, avoid_prefix=[a])
+                t2["kids"] = [k for k in t2["kids"] if k["name"] != a]
+                prep = [{"op": "graft", "tree": "T", "path": [a], "onto": ["T2", []], "opt": r.choice([True, False, "copy"])}]
+                trees, src = {"T": t, "T2": t2}, "T2"
+            yield {"trees": trees, "prep": prep, "steps": [
+                {"do": "save", "path": "A", "src": src, "target": list(tgt), "mode": "w", "tree": r.choice([True, False, None]), "emdpath": None},
+                {"do": "walk", "path": "A"}, {"do": "info", "path": "A"}]}
+            continue
         if tier == "thorough" and i % 4 == 0:
             for p in paths[:12]:
                 for opt in (True, False, None):
